@@ -67,6 +67,42 @@ def check(tier, seed):
                 res.violation('C05 oracle: ' + why, {'property': 'C05', 'input': desc, 'request': f'{sc["reqs"][0].op}:{sc["reqs"][0].label}',
                                                     'result': out[:300], 'reason': why}, f'C05|{sc["reqs"][0].op}|{sc["plan"][0][0]}|{why[:40]}')
             cases.append(C.Case('request-endless', S.model_cmd(sc, sk), proj(out), desc, domain=False, kind='endless/' + sc['plan'][0][0], proj=proj))
+        # the configuration interface itself: accepted ranges (0..10, 0..5000), defaults, old value returned, refusals leave it as it was
+        import ubxlib.server_base as SB
+        from ubxlib.frame_factory import FrameFactory
+        FrameFactory.destroy()
+
+        class Bare(SB.UbxServerBase_):
+            pass
+        b = Bare()
+        probe = {'defaults': (b.max_retries, b.retry_delay_in_ms)}
+        acc_r, acc_d = [], []
+        for v in list(range(-2, 14)) + [100]:
+            before = b.max_retries
+            try:
+                old = b.set_retries(v)
+                acc_r.append(v)
+                if old != before or b.max_retries != v:
+                    probe['retries_semantics'] = f'set_retries({v}) returned {old}, stored {b.max_retries}'
+            except AssertionError:
+                if b.max_retries != before:
+                    probe['retries_refusal'] = f'refused set_retries({v}) changed max_retries to {b.max_retries}'
+        for v in [-1, 0, 1, 1800, 4999, 5000, 5001, 10000]:
+            before = b.retry_delay_in_ms
+            try:
+                old = b.set_retry_delay(v)
+                acc_d.append(v)
+                if old != before or b.retry_delay_in_ms != v:
+                    probe['delay_semantics'] = f'set_retry_delay({v}) returned {old}, stored {b.retry_delay_in_ms}'
+            except AssertionError:
+                if b.retry_delay_in_ms != before:
+                    probe['delay_refusal'] = f'refused set_retry_delay({v}) changed the delay to {b.retry_delay_in_ms}'
+        b.cleanup()
+        probe['accepted_retries'], probe['accepted_delays'] = acc_r, acc_d
+        res.notes['configuration_probe'] = probe
+        if acc_r != list(range(0, 11)) or acc_d != [0, 1, 1800, 4999, 5000] or any(k.endswith(('semantics', 'refusal')) for k in probe):
+            res.violation('retry configuration is not confined to retries 0..10 / delay 0..5000 ms (or a refused call changed it)',
+                          {'property': 'C05', 'input': {'probe': 'set_retries(-2..13,100), set_retry_delay(-1,0,1,1800,4999,5000,5001,10000)'}, 'observed': probe}, 'c05-config')
         res.compare(cases)
         res.oblige('correspondence request loop: sends / time / returns (Tie A)', not res.disagreements)
         res.oblige('bound oracle on the implementation', not res.violations)
